@@ -468,24 +468,43 @@ func (m *Encoder) encodeWithAnnotation(v reflect.Value, fields []field) error {
 	original := v
 	for _, field := range fields {
 		if field.annotations {
-			annotations, err := findSubvalue(original, &field)
-			if err != nil {
-				return err
+			annotations, found := readSubvalue(original, &field)
+			if !found {
+				// Behind a nil embedded pointer: there are no annotations.
+				continue
 			}
 			listOfAnnotations, ok := annotations.Interface().([]SymbolToken)
 			if !ok {
 				return fmt.Errorf("ion: '%v' is provided for annotations, "+
 					"it must be of type []SymbolToken", annotations.Kind())
 			}
-			err = m.w.Annotations(listOfAnnotations...)
-			if err != nil {
+			if err := m.w.Annotations(listOfAnnotations...); err != nil {
 				return err
 			}
 		} else {
-			v, _ = findSubvalue(original, &field)
+			var found bool
+			if v, found = readSubvalue(original, &field); !found {
+				v = reflect.Zero(field.typ)
+			}
 		}
 	}
 	return m.encodeValue(v, NoType)
+}
+
+// readSubvalue walks the field's index path like findSubvalue, but never writes
+// through the value being marshalled: when a nil embedded pointer is in the way
+// it reports false instead of allocating it.
+func readSubvalue(v reflect.Value, f *field) (reflect.Value, bool) {
+	for _, i := range f.path {
+		if v.Kind() == reflect.Ptr {
+			if v.IsNil() {
+				return reflect.Value{}, false
+			}
+			v = v.Elem()
+		}
+		v = v.Field(i)
+	}
+	return v, true
 }
 
 // EmptyValue returns true if the given value is the empty value for its type.
